@@ -64,23 +64,44 @@ class _Gw:
 
 
 def call_jobs(jobs):
-    """the public call path: `await handler.command(name, *args, **kwargs)` with a recording gateway; the call is
-    abandoned once its request has been handed to the gateway.  jobs: (handler, seq, name, args, kwargs) -> hex / raised:X"""
+    """the public call path: `await handler.command(name, *args, **kwargs)` with a recording gateway.  The handler keeps its
+    own sequence counter across all the calls made through it (hundreds per version: the counter wraps many times).
+    jobs: (handler, name, args, kwargs, reply) with reply = None | (payload bytes, rx fields): the reply is sent back under
+    the sequence number and frame ID the request carried and must complete the call with exactly its values.
+    -> (sent hex | raised:X, outcome string | None)"""
     import asyncio
 
     async def main():
         out = []
-        for h, seq, name, args, kwargs in jobs:
+        for h, name, args, kwargs, reply in jobs:
             gw = _Gw()
             h._gw = gw
-            h._seq = seq
-            h._awaiting.clear()
+            h._handle_callback = lambda *a: None
             t = asyncio.ensure_future(h.command(name, *args, **kwargs))
             for _ in range(3):
                 if gw.sent or t.done():
                     break
                 await asyncio.sleep(0)
-            t.cancel()
+            outcome = None
+            if reply is not None and len(gw.sent) == 1 and not t.done():
+                payload, fields, rcid = reply
+                # the NCP answers under the sequence number the request carried
+                try:
+                    h(ezsplib.spec_header(h.VERSION, gw.sent[0][0], rcid) + payload)
+                    res = await asyncio.wait_for(t, 0.5)
+                    if len(fields) == 1 and fields[0][0] == "<single>":
+                        vals = [ezsplib.canon(fields[0][2], res)]
+                    else:
+                        vals = [ezsplib.canon(d, a) for (_, _, d), a in zip(fields, res)]
+                        if len(res) != len(fields):
+                            vals = [f"arity:{len(res)}"]
+                    outcome = f"{name}:[{','.join(vals)}]"
+                except asyncio.TimeoutError:
+                    outcome = "no-completion"
+                except Exception as e:  # noqa: BLE001
+                    outcome = f"raised:{type(e).__name__}"
+            if not t.done():
+                t.cancel()
             try:
                 await t
                 res = None
@@ -88,9 +109,9 @@ def call_jobs(jobs):
                 res = None
             except Exception as e:  # noqa: BLE001
                 res = f"raised:{type(e).__name__}"
-            if res is None:
+            if res is None or (len(gw.sent) == 1 and outcome is not None):
                 res = hx(gw.sent[0]) if len(gw.sent) == 1 else f"sent:{len(gw.sent)}"
-            out.append(res)
+            out.append((res, outcome))
         return out
 
     return asyncio.run(main())
@@ -124,6 +145,7 @@ def run(ctx):
     n_pairs = 0
     for v in range(4, 15):
         h = ezsplib.handler(v)
+        hc = ezsplib.handler(v)   # a second handler for the public call path: its sequence counter runs on by itself
         mod = importlib.import_module(f"bellows.ezsp.v{v}.commands")
         ids = {}
         for name, (cid, tx, rx) in mod.COMMANDS.items():
@@ -171,12 +193,29 @@ def run(ctx):
                         rows.append(("tx", v, name, line, got, want, f"kw={kw} {vals}"))
                         try:
                             a, k = tx_args(name, txf, body, kw)
-                            jobs.append((h, seq, name, a, k))
-                            job_rows.append((v, name, want, f"call kw={kw} {vals}"))
+                            reply = None
+                            if kw == 0 and name != "invalidCommand" and not any(ezsplib.has(d, ("inv", "cond")) for _, _, d in rxf):
+                                if rep == 1 and "invalidCommand" in mod.COMMANDS:
+                                    # the NCP does not know the command: it answers with the invalid-command frame under the
+                                    # request's sequence number; the call must end with that error (not hang, not mis-decode)
+                                    irx = ezsplib.schema_fields(mod.COMMANDS["invalidCommand"][2])
+                                    ip = [ezsplib.gen(d, rng, "rand", i == len(irx) - 1) for i, (_, _, d) in enumerate(irx)]
+                                    reply = (b"".join(p[1] for p in ip), [], mod.COMMANDS["invalidCommand"][0], "raised:InvalidCommandError")
+                                else:
+                                    rparts = [ezsplib.gen(d, rng, mode, i == len(rxf) - 1) for i, (_, _, d) in enumerate(rxf)]
+                                    reply = (b"".join(p[1] for p in rparts), rxf, cid, f"{name}:[{','.join(p[0] for p in rparts)}]")
+                            jobs.append((hc, name, a, k, reply[:3] if reply else None))
+                            job_rows.append((v, name, body, cid, f"call kw={kw} {vals}", reply[3] if reply else None))
                         except Exception:  # noqa: BLE001  (the _ezsp_frame row above reports it)
                             pass
-    for (v, name, want, note), got in zip(job_rows, call_jobs(jobs)):
-        rows.append(("call", v, name, None, got, want, note))
+    nseq = {}
+    for (v, name, body, cid, note, want_reply), (got, outcome) in zip(job_rows, call_jobs(jobs)):
+        k = nseq.get(v, 0)
+        nseq[v] = k + 1
+        want = hx(ezsplib.spec_header(v, k % 256, cid) + body)   # the k-th command through this handler carries sequence k mod 256
+        rows.append(("call", v, name, None, got, want, note + f" (command #{k} of this handler)"))
+        if want_reply is not None and not got.startswith("raised"):
+            rows.append(("reply", v, name, None, outcome, want_reply, note + f" (command #{k} of this handler)"))
     out = ctx.driver([r[3] for r in rows if r[3]])
     k = 0
     for kind, v, name, line, got, want, note in rows:
@@ -203,7 +242,7 @@ def run(ctx):
     ctx.cov["rule"] = (f"every (version, command) pair of versions 4..14 ({n_pairs} pairs) x {reps} value tuples per direction (all-zero/empty, maximal, random; optional tail present and absent); "
                        "receive path = real handler __call__ on header + independently encoded payload, decoded values canonicalised by descriptor; transmit path = real _ezsp_frame with positional, keyword, "
                        "reversed-keyword and mixed argument forms, and the same argument forms through the public call path (await handler.command(name, ...) with a recording gateway: "
-                       "the bytes handed to send_data); every case is distinct and non-trivial")
+                       "the bytes handed to send_data, each handler's own sequence counter running on through many wraps; the NCP's reply under the request's header then completes the call with its values); every case is distinct and non-trivial")
     ctx.exhaustive = True
 
 
